@@ -790,7 +790,7 @@ func init() {
 		SelfTest: ref.SelfTestBIP69,
 		Streams: []*vf.Stream{
 			{Name: "exhaustive", Exhaustive: true, Init: c18init, N: func(vf.Tier) int { return c18seqCount(c18alphaI, c18maxIn) }, Run: c18exhaustiveCase},
-			{Name: "seeded", Init: c18init, N: func(t vf.Tier) int { return c18directedPairs + t.Sz(150000, 3000000) }, Run: c18seededCase},
+			{Name: "seeded", Init: c18init, N: func(t vf.Tier) int { return c18directedPairs + t.Sz(600000, 3000000) }, Run: c18seededCase},
 		},
 	})
 }
